@@ -20,14 +20,16 @@ for k in $(seq 1 $K); do
 done
 wait
 python3 - "$K" "$V" <<'E'
-import json, sys
+import json, sys, re
 K, V = int(sys.argv[1]), sys.argv[2]
 res = json.load(open(f"{V}/seeded/RESULTS.json"))
 base = dict(res)
 for k in range(1, K + 1):
     lane = json.load(open(f"/var/tmp/vcopy-{k}/seeded/RESULTS.json"))
-    for n, v in lane.items():               # a lane starts from a copy of our file and rewrites only its own entries
-        if base.get(n) != v: res[n] = v
+    for n in open(f"/var/tmp/seedlane-{k}.txt").read().split():
+        m = re.search(r"seed(\d?)-(C\d+)-out/(\d+)", n)      # staging dir -> stored name, as in seedtest.py
+        if m: n = f"{m.group(2)}-{int(m.group(3)) + 2 * (int(m.group(1) or 1) - 1)}"
+        if n in lane: res[n] = lane[n]
 json.dump(res, open(f"{V}/seeded/RESULTS.json", "w"), indent=1, sort_keys=True)
 import collections
 print(collections.Counter(v["result"] for v in res.values()))
